@@ -46,7 +46,8 @@ int vfprintf(FILE *fp, const char *fmt, va_list ap);
 static int
 gmp_fprintf_memory (FILE *fp, const char *str, size_t len)
 {
-  return fwrite (str, 1, len, fp);
+  /* a short count means a write error: report it like the format function */
+  return fwrite (str, 1, len, fp) == len ? (int) len : -1;
 }
 
 /* glibc putc is a function, at least when it's in multi-threaded mode or
@@ -63,9 +64,8 @@ gmp_fprintf_reps (FILE *fp, int c, int reps)
     {
       piece = MIN (i, sizeof (buf));
       ret = fwrite (buf, 1, piece, fp);
-      if (ret == -1)
-        return ret;
-      ASSERT (ret == piece);
+      if (ret != piece)	/* fwrite reports an error by a short count, never -1 */
+        return -1;
     }
 
   return reps;
